@@ -102,9 +102,9 @@ var props = []Prop{
 	},
 	{
 		ID: "C10",
-		Harnesses: []H{{Pkg: "ecs", Fn: "HC10_Illegal"}, {Pkg: "ecs", Fn: "HC10_Illegal", Tags: "tiny", Tier: "thorough"}},
+		Harnesses: []H{{Pkg: "ecs", Fn: "HC10_Illegal"}, {Pkg: "ecs", Fn: "HC10_Illegal", Tags: "tiny", Tier: "thorough"}, {Pkg: "ecs", Fn: "HC03_BatchQuery"}},
 		Conform: stdConform,
-		Bounds:  "6 prefixes x 1 failed call (thorough: followed by a second, fixed failed call) out of 9 illegal classes with all arguments symbolic and constrained only to be illegal per the documentation: Add/Remove/Exchange (dead or recycled entity, present/absent component, second relation), Assign (incl. no components), every accessor/mutator on a removed entity, Set / write through Get on a missing component, creation with two relations / target without relation / relation not among the components / non-relation named as relation (ids and values), duplicate ids (NewEntity, NewEntityWith, Add, Remove, Exchange), non-positive batch counts (fully symbolic count <= 0, NewBatch and NewBatchQ), Relations.Set and Relations.Exchange / Builder.Add with target (dead entity, wrong component, dead target, no effect); asserted: panic, then all observables = model, structural invariant, pool/index/row digest unchanged, world unlocked, and two further legal operations behave per the model; 2 configurations (thorough 6). Out-of-range query indices and non-positive steps are decided in C03, filter double (un)registration in C07, resources in C20, type limit in C16, LoadEntities in C17.",
+		Bounds:  "6 prefixes x 1 failed call (thorough: followed by a second, fixed failed call) out of 10 illegal classes with all arguments symbolic and constrained only to be illegal per the documentation: Add/Remove/Exchange (dead or recycled entity, present/absent component, second relation), Assign (incl. no components), every accessor/mutator on a removed entity, Set / write through Get on a missing component, creation with two relations / target without relation / relation not among the components / non-relation named as relation (ids and values), duplicate ids (NewEntity, NewEntityWith, Add, Remove, Exchange), non-positive batch counts (fully symbolic count <= 0, NewBatch and NewBatchQ), Relations.Set and Relations.Exchange / Builder.Add with target (dead entity, wrong component, dead target, no effect); asserted: panic, then all observables = model, structural invariant, pool/index/row digest unchanged, world unlocked, and two further legal operations behave per the model; 2 configurations (thorough 6). filter misuse (registering a registered filter, unregistering twice, unregistering or querying through a stale handle after a later registration); out-of-range indices (fully symbolic, 64 bit) on batch-result queries by HC03_BatchQuery, run here too; out-of-range indices on plain queries and non-positive steps are decided in C03, further cache histories in C07, resources in C20, type limit in C16, LoadEntities in C17.",
 		Outside: "empty graph nodes / tables left behind by a failed graph walk (visible only through Stats().Nodes, not an observable named by the property); sequences of more than two failed calls",
 	},
 	{
